@@ -5,12 +5,15 @@ CONSTANTS
   Thr = 2
   Tol = 2
   Fresh = TRUE
+  Slow = FALSE
+  QCap = 1000
+  Bursts <- MCNone
   Credits <- MCCredits
   Pays <- MCPays
   Reserves <- MCReserves
   Avails <- MCAvails
   Traffs <- MCTraffs
   MaxOps = 3
-INVARIANTS TypeOK NonNegative LockProtocol PaymentRequested NoDeadlock
+INVARIANTS TypeOK NonNegative LockProtocol PaymentRequested NoDeadlock QueueProtocol
 PROPERTIES BalanceFrame DebitFrame
 CHECK_DEADLOCK FALSE
